@@ -60,7 +60,7 @@ func (q *payloadQueue) markAsAcked(tsn uint32) int {
 func (q *payloadQueue) markAllToRetrasmit() {
 	for i := 0; i < q.chunks.Len(); i++ {
 		c := q.chunks.At(i)
-		if c.acked || c.givenUp() {
+		if c.acked || c.abandoned() {
 			continue
 		}
 		c.retransmit = true
